@@ -218,19 +218,20 @@ func (g *gen) groupRefs(allowMissing bool) []M {
 // ActionTypesFor lists the action types valid in a flow type.
 func ActionTypesFor(flowType string) []string {
 	universal := []string{"send_msg", "set_contact_name", "set_contact_language", "set_contact_field", "set_contact_status", "set_contact_timezone",
-		"set_contact_channel", "add_contact_groups", "remove_contact_groups", "add_contact_urn", "add_input_labels", "set_run_result", "enter_flow"}
-	online := []string{"call_webhook", "call_resthook", "call_classifier", "open_ticket", "transfer_airtime", "send_email", "send_broadcast", "start_session", "request_optin"}
+		"add_contact_groups", "remove_contact_groups", "add_contact_urn", "set_run_result", "enter_flow", "enter_flow"}
+	online := []string{"call_webhook", "call_resthook", "call_classifier", "open_ticket", "transfer_airtime", "send_email", "send_broadcast", "start_session", "request_optin", "set_contact_channel"}
+	out := append([]string{}, universal...)
 	switch flowType {
 	case "messaging":
-		return append(universal, online...)
+		return append(append(out, online...), "add_input_labels")
 	case "messaging_background":
-		return append(universal, online...)
+		return append(out, online...)
 	case "messaging_offline":
-		return universal
+		return append(out, "add_input_labels")
 	case "voice":
-		return append(append(universal, online...), "say_msg", "play_audio")
+		return append(append(out, online...), "say_msg", "play_audio", "add_input_labels")
 	}
-	return universal
+	return out
 }
 
 func contains(list []string, s string) bool {
@@ -273,7 +274,7 @@ func (g *gen) action(flowType string, flowUUIDs []string, flowNames []string) M 
 			a["template"] = M{"uuid": UUID("template", 1), "name": "affirmation"}
 			a["template_variables"] = []string{"@contact.name", g.template()}
 		}
-		if a["text"] == "" && a["attachments"] == nil {
+		if a["text"] == "" {
 			a["text"] = "hi"
 		}
 	case "say_msg":
@@ -396,6 +397,9 @@ func (g *gen) action(flowType string, flowUUIDs []string, flowNames []string) M 
 		a["addresses"] = []string{rapid.SampledFrom([]string{"bob@nyaruka.com", "@urns.mailto", "@(1 / 0)", "not an address"}).Draw(g.t, "address")}
 		a["subject"] = rapid.SampledFrom([]string{"Hello", "@contact.name", "@(\"\")"}).Draw(g.t, "subject")
 		a["body"] = g.template()
+		if a["body"] == "" {
+			a["body"] = "body"
+		}
 	case "send_broadcast":
 		a["text"] = g.template()
 		if a["text"] == "" {
